@@ -4,9 +4,15 @@ R34a  Vfs::file_id and Vfs::get_file_id resolve a uri through uri_to_file_path (
       keyed by the decoded path; on that path they never consult a map keyed by the uri text.
 R34b  inventory: every map/set keyed by Uri/Url in the analysis and the server is in the audited table below (a new uri-keyed
       store of per-file state would split one file into one entry per spelling).
+R34c  necessary condition of the round trip: uri_to_file_path percent-decodes the url path exactly once on every path to a Some
+      result (no decode call is reachable from another one, the decoder's input is Url::path() and nothing else), and
+      file_path_to_uri encodes through Url::from_file_path only (no percent-encoding / replace call of its own). Decoding twice
+      maps `100%25.lua` and `100%.lua` (or `a%2541` and `a%41`) to one path: the round trip and file identity both break.
 The round trip path -> uri -> path over all strings is value-level behaviour of the `url` crate and of percent-decoding and is
 not decided.
 """
+import cfgutil
+import dataflow
 from report import RuleBroken
 
 VFS = "emmylua_code_analysis::vfs::Vfs"
@@ -48,6 +54,7 @@ def run(chk, F, tier):
                   "Vfs::%s %s: the same file reached through two percent-encodings of its path would get two ids"
                   % (fn, "looks a uri-keyed map up" if uri_maps else "no longer resolves the uri through uri_to_file_path and a path-keyed map"),
                   b.loc(uri_maps[0] if uri_maps else None), sample={"rule": "R34a", "fn": fn, "verdict": "decoded path is the key"})
+    run_r34c(chk, F)
     n = 0
     for aid, adt in sorted(F.adts.items()):
         if not aid.startswith(("emmylua_code_analysis", "emmylua_ls", "emmylua_check", "emmylua_doc_cli")):
@@ -69,3 +76,42 @@ def run(chk, F, tier):
                           sample={"rule": "R34b", "field": key, "verdict": "audited", "reason": URI_KEYED_AUDITED.get(key)})
     chk.floor("uri-keyed containers", n, 3)
     chk.explanation = "Callee/receiver-type scan of the two Vfs lookups; inventory of uri-keyed containers from the ADT facts."
+
+
+def run_r34c(chk, F):
+    chk.rule("R34c", "uri_to_file_path percent-decodes Url::path() exactly once; file_path_to_uri encodes through Url::from_file_path only")
+    H = "emmylua_code_analysis::vfs::file_uri_handler::"
+    b = F.bodies.get(H + "uri_to_file_path")
+    e = F.bodies.get(H + "file_path_to_uri")
+    if b is None or e is None:
+        raise RuleBroken("uri_to_file_path / file_path_to_uri not found")
+    dec = [(bb, c) for bb, c in b.calls() if name(c).startswith("percent_encoding::percent_decode")]
+    succ = b.succ_map()
+    twice = None
+    for bb, c in dec:
+        later = cfgutil.reachable(succ, bb) - {bb}
+        for bb2, c2 in dec:
+            if bb2 in later or (bb2 == bb and bb in cfgutil.reachable(succ, succ[bb][0] if succ[bb] else bb)):
+                twice = (c["l"], c2["l"])
+    chk.check(len(dec) >= 1 and twice is None, "R34c", "decode-once",
+              "uri_to_file_path %s: a path containing a literal '%%' followed by two hex digits does not survive path -> uri -> path, and two "
+              "distinct files collapse onto one id" % ("can percent-decode twice on one path (lines %s)" % (twice,) if twice else "no longer percent-decodes the url path"),
+              b.loc(twice[1] if twice else None), witness={"decode_calls": [c["l"] for _, c in dec]},
+              sample={"rule": "R34c", "fn": "uri_to_file_path", "verdict": "one decode on every path"})
+    # the decoder's input is Url::path()
+    bad_src = None
+    for bb, c in dec:
+        l = dataflow.operand_local(c["a"][0]) if c["a"] else None
+        roots = dataflow.roots(b, l) if l is not None else set()
+        ok = roots and all(r[0] == "call" and name(b.blocks[r[1]][2][1]).endswith("Url::path") for r in roots)
+        if not ok:
+            bad_src = c["l"]
+    chk.check(bad_src is None, "R34c", "decode-source",
+              "the percent-decoder in uri_to_file_path is fed something other than Url::path() (a value that was already decoded or re-encoded)",
+              b.loc(bad_src), sample={"rule": "R34c", "fn": "uri_to_file_path", "verdict": "decoder input is Url::path()"})
+    enc = [c["l"] for bb, c in e.calls() if name(c).startswith("percent_encoding::") or name(c).endswith(("::replace", "::replacen"))]
+    via = [c["l"] for bb, c in e.calls() if name(c).endswith("Url::from_file_path")]
+    chk.check(bool(via) and not enc, "R34c", "encode-once",
+              "file_path_to_uri %s: paths are no longer encoded exactly once by Url::from_file_path" %
+              ("adds its own encoding/replacement step" if enc else "does not go through Url::from_file_path"),
+              e.loc(enc[0] if enc else None), sample={"rule": "R34c", "fn": "file_path_to_uri", "verdict": "Url::from_file_path only"})
